@@ -67,3 +67,32 @@ func writeEdwards(repoRoot, srcRoot, verifRoot string, check bool) int {
 	}
 	return stale
 }
+
+// ---------------- polynomials ----------------
+
+func globPkgs(srcRoot string, patterns ...string) []string {
+	var out []string
+	for _, pat := range patterns {
+		dirs, _ := filepath.Glob(filepath.Join(srcRoot, pat))
+		for _, d := range dirs {
+			out = append(out, "./"+strings.TrimPrefix(d, srcRoot+"/"))
+		}
+	}
+	return out
+}
+
+func polyPkgs(srcRoot string) []string { return globPkgs(srcRoot, "ecc/*/fr/polynomial") }
+func iopPkgs(srcRoot string) []string  { return globPkgs(srcRoot, "ecc/*/fr/iop") }
+
+// writeSame installs one template unchanged into every package of the list.
+func writeSame(repoRoot, verifRoot, tmpl, fileName string, pkgs []string, check bool) int {
+	b, err := os.ReadFile(filepath.Join(verifRoot, "contracts", tmpl))
+	if err != nil {
+		return 0
+	}
+	stale := 0
+	for _, p := range pkgs {
+		stale += installText(filepath.Join(repoRoot, strings.TrimPrefix(p, "./"), fileName), string(b), check)
+	}
+	return stale
+}
